@@ -24,6 +24,7 @@ pub mod c22;
 pub mod c23;
 pub mod c24;
 pub mod fd;
+pub mod mirilane;
 pub mod search;
 pub mod surface;
 pub mod surfgen;
